@@ -156,3 +156,108 @@ func c12GoIdentGuard(c *core.Check, pk *packages.Package) {
 	}
 	c.Decide(bad == nil, "go-node-guard", "goxRecorder.Member", pos, "every recording for a selector is inside the CheckIdent guard", "goxRecorder.Member records a selector outside the guard that excludes identifiers converted from Go files (fromgo.CheckIdent): for a mixed package, nodes that belong to none of the checked files end up in Info.Types/Uses")
 }
+
+// c12TypesKeys: (a) a recorder call keyed on a node field documented as optional ("…; or nil") is guarded by a nil test
+// of that field — an elided composite-literal type otherwise puts a nil key into Info.Types; (b) the for statement that
+// toForStmt synthesizes for `for i <- a:b` is compiled by compileForStmt, which records scopes (and, through its
+// condition, types) for the nodes it is given: nodes that belong to no checked file (known finding).
+func c12TypesKeys(c *core.Check, prog *core.Prog, pk *packages.Package) {
+	info := pk.TypesInfo
+	var docs map[*types.Var]string
+	for _, dep := range pk.Imports {
+		if strings.HasSuffix(dep.PkgPath, "xgo/ast") {
+			docs = fieldDocs(dep)
+		}
+	}
+	n := 0
+	for _, fd := range core.AllFuncDecls(pk) {
+		if fd.Body == nil {
+			continue
+		}
+		var stack []ast.Node
+		ast.Inspect(fd.Body, func(nd ast.Node) bool {
+			if nd == nil {
+				stack = stack[:len(stack)-1]
+				return true
+			}
+			stack = append(stack, nd)
+			call, ok := nd.(*ast.CallExpr)
+			if !ok || len(call.Args) < 1 {
+				return true
+			}
+			fsel, ok := call.Fun.(*ast.SelectorExpr)
+			if !ok || !(fsel.Sel.Name == "Type" || fsel.Sel.Name == "Scope" || fsel.Sel.Name == "recordType") {
+				return true
+			}
+			if t := info.TypeOf(fsel.X); t == nil || !strings.Contains(t.String(), "ecorder") {
+				return true
+			}
+			key, ok := ast.Unparen(call.Args[0]).(*ast.SelectorExpr)
+			if !ok {
+				return true
+			}
+			s := info.Selections[key]
+			if s == nil || s.Kind() != types.FieldVal {
+				return true
+			}
+			fv, _ := s.Obj().(*types.Var)
+			if fv == nil || !strings.Contains(docs[fv], "or nil") {
+				return true
+			}
+			n++
+			want := nows(core.ExprStr(key)) + "!=nil"
+			guarded := false
+			for i := len(stack) - 2; i >= 0; i-- {
+				if is, isIf := stack[i].(*ast.IfStmt); isIf && i+1 < len(stack) && stack[i+1] == ast.Node(is.Body) {
+					for _, cj := range conjuncts(is.Cond) {
+						if nows(core.ExprStr(cj)) == want {
+							guarded = true
+						}
+					}
+				}
+			}
+			k := core.FuncName(fd) + ":" + nows(core.ExprStr(key))
+			c.Decide(guarded, "types-key-guard", k, call.Pos(), "recorded only when present", core.FuncName(fd)+" records "+core.ExprStr(key)+" — a field documented as optional — without testing it for nil: when it is absent (the elided type of `{1, 2}` in `[]P{{1, 2}}`) a nil key is stored in Info.Types")
+			return true
+		})
+	}
+	c.Analysed("recorder_calls_keyed_on_optional_fields", n)
+	c.Floor("types-key-guard", 1)
+	// (b)
+	tfs := pk.Types.Scope().Lookup("toForStmt")
+	cfs := core.FindFuncDecl(pk, "compileForStmt")
+	if tfs == nil || cfs == nil {
+		return
+	}
+	records := false
+	ast.Inspect(cfs.Body, func(nd ast.Node) bool {
+		if call, ok := nd.(*ast.CallExpr); ok {
+			if sel, ok := call.Fun.(*ast.SelectorExpr); ok && sel.Sel.Name == "Scope" && len(call.Args) == 2 {
+				if identObj(info, call.Args[0]) == paramObj(cfs, info, 1) {
+					records = true
+				}
+			}
+		}
+		return true
+	})
+	for _, fd := range core.AllFuncDecls(pk) {
+		if fd.Body == nil {
+			continue
+		}
+		ast.Inspect(fd.Body, func(nd ast.Node) bool {
+			call, ok := nd.(*ast.CallExpr)
+			if !ok || len(call.Args) < 2 || core.FuncName(fd) == "compileForStmt" {
+				return true
+			}
+			if fn, ok := calleeObj(info, call).(*types.Func); !ok || fn.Name() != "compileForStmt" {
+				return true
+			}
+			inner, ok := ast.Unparen(call.Args[1]).(*ast.CallExpr)
+			if !ok || calleeObj(info, inner) != tfs {
+				return true
+			}
+			c.Decide(!records, "synth-node-recorded", core.FuncName(fd)+":toForStmt", call.Pos(), "the synthesized loop is not recorded", core.FuncName(fd)+" compiles the for statement that toForStmt synthesizes for a range expression with compileForStmt, which records a scope for the statement it is given (rec.Scope(v, …)) and types for its synthesized condition: Info.Scopes and Info.Types get nodes that belong to none of the checked files")
+			return true
+		})
+	}
+}
